@@ -528,7 +528,7 @@ def run(ctx):
     ctx.cov["untranslated"] = ["%s.%s: %s" % x for x in untr]
 
     # Lean driver (Gen + Spec, not the theorems)
-    ok, log, wall = common.lean_build(["driver"])
+    ok, log, wall = common.lean_build(["drv_c04"])
     ctx.cov["lean_driver_build_s"] = round(wall, 1)
     if not ok:
         ctx.build_log = log
@@ -697,7 +697,7 @@ def replay(ctx, path):
     if b is None:
         print("builtin %s no longer exists" % X)
         return 1
-    common.lean_build(["driver"])
+    common.lean_build(["drv_c04"])
     progress("lean driver built")
     exe = build_drivers(build)
     progress("C drivers built")
